@@ -436,7 +436,13 @@ func setExpires(ctx *Context, fact map[string]interface{}) (bool, int64, error) 
 		case float64: // Only kind of number in Javascript!
 			expires = NowSecs() + int64(vv)
 		case int64:
-			expires = vv
+			// Seconds, too.  (A whole number from a script
+			// arrives as an int64, and so can one from Go.
+			// It was taken for the expiry instant itself,
+			// so "ttl":5 was rejected as already expired.)
+			expires = NowSecs() + vv
+		case int:
+			expires = NowSecs() + int64(vv)
 		case string:
 			d, err := time.ParseDuration(vv)
 			if err != nil {
